@@ -19,7 +19,7 @@ CHECKS = {
          "at the public log_prob boundary of a harness tag distribution (host callbacks) and the softmax cross-entropy recomputed from them",
          "Exploration: ~85 maximum-likelihood, 60 ELBO (value + gradient identity on 200 gradient leaves) and 70 contrastive evaluations "
          "(every n_contrastive for batches 2-32, one loss object over sequences of batch sizes, sharply peaked logits; 1e4 observed log_prob events), several batch layouts and "
-         "partially out-of-support batches for the ML loss per quick run; thorough repeats 12x over all combinations.",
+         "partially out-of-support batches for the ML loss per quick run; thorough repeats 4x over all combinations.",
          "Value tolerance 1e-10 relative, gradient identity 1e-6; rows carry unique tags so the observed sets are unambiguous.",
          "DESIGN.md 4/C17"),
  "C14": ("runtime differential monitor with the eager execution as oracle: every method of every structure under eqx.filter_jit (bound "
